@@ -68,12 +68,33 @@ def _f32(case):
     return case.get("probe") == "optional-enum-none-value"
 
 
+F52_SIG = "self-inside-pep604-union"
+
+
+@framework.finding(F52_SIG)
+def _f52(case):
+    """F52: `typing.Self` inside a PEP 604 union object (`list[Self] | None`) is not substituted"""
+    return case.get("probe") == F52_SIG
+
+
 def run(chk: framework.Check):
+    import os
+    if os.environ.get("VERIF_F52") and not any(f.get("signature") == F52_SIG for f in chk.known):
+        chk.known.append({"id": "F52", "property": "C01", "kind": "finding", "signature": F52_SIG,
+                          "what": "typing.Self inside a PEP 604 union object (list[Self] | None) is not substituted (entry assumed via VERIF_F52)"})
     drv = lean.Driver()
     n_worlds = 600 if chk.tier == "quick" else 6000
     corr_fail = []
-    for G, S, w in streams.worlds(chk, drv, n_worlds, no_any=True):
+    for G, S, w in streams.worlds(chk, drv, n_worlds, no_any=True, unions=True):
         for ty, x, xv in streams.typed_values(chk, G, S, w, n_types=5, n_values=2):
+            unions = gen.reach_unions(w, ty)
+            # a union the generator did not build to be distinguishable may be refused (hook creation or structuring
+            # raises: C12 "refuses instead of guessing"); what it must never do is come back as something else
+            lenient = any(not gen.union_by_construction(w, u) for u in unions)
+            if unions:
+                scope = drv.ask("USCOPE 0 %s" % terms.ty_sx(ty))
+                chk.note("union-case:" + ("by-construction" if not lenient else "arbitrary-members"),
+                         "union-hyp(unionsOK,refusal-reachable,noUnion):" + scope)
             for cu, cs in PAIRS:
                 if not (gen.supported(cu, w, ty) and gen.supported(cs, w, ty)):
                     chk.note("unsupported-by-converter-class")
@@ -89,6 +110,17 @@ def run(chk: framework.Check):
                 for t in gen.walk_types(ty):
                     chk.note("ctor:" + (t if isinstance(t, str) else t[0]))
                 # ---- oracle
+                if unions and lenient and ri[0] == "err-st":
+                    # refused, not guessed; the model must refuse as well
+                    chk.note("union:refused")
+                    rm = composite_model(S, cu, cs, ty, x)
+                    if rm[0] == "unmodelled":
+                        chk.unmodelled += 1
+                    elif rm != ("err",):
+                        corr_fail.append((case, ("refused", repr(ri[1])[:120]), rm))
+                    continue
+                if unions and ri[0] == "ok" and ri[1] == terms.canon_sx(x):
+                    chk.note("union:round-trip-ok")
                 if ri[0] != "ok" or ri[1] != terms.canon_sx(x):
                     got = ri[1] if ri[0] == "ok" else repr(ri[1])[:200]
                     chk.violation(f"C01 oracle: round trip gives {ri[0]} {got} [{name} {terms.ty_sx(ty)} {terms.canon_sx(x)}]",
@@ -107,7 +139,8 @@ def run(chk: framework.Check):
             f"[{cfg_name(case['cu'])}=>{cfg_name(case['cs'])} {terms.ty_sx(case['ty'])} {terms.canon_sx(case['x'])}]",
             case, found_input=False)
     known_finding_probes(chk, drv)
-    chk.extra["rule"] = ("random worlds (attrs/dataclass/TypedDict, frozen/slots, defaults/factories, init=False, kw_only, private names) x types "
+    chk.extra["rule"] = ("random worlds (attrs/dataclass/TypedDict, union families told apart by unique required attributes / Literal tags / "
+                         "not at all, frozen/slots, defaults/factories, init=False, kw_only, private names) x types (incl. class unions, Optional[Union]) "
                          "to depth 3 x conforming values x 8 configurations + 4 cross pairs; non-trivial = non-leaf type; distinct by canonical text")
     # implementation-only extended stream (unions, NamedTuples, registry hooks, one-shot iterables)
     from harness import ext
@@ -115,8 +148,39 @@ def run(chk: framework.Check):
     drv.close()
 
 
+def probe_f52(chk):
+    """F52 (same root cause as F27): `Self` inside a types.UnionType is never substituted -- `Optional[list[Self]]` works,
+    `list[Self] | None` does not: structure raises `Unsupported type: typing.Self`, unstructure leaves the nested
+    instances as they are.  The realiser does not use the PEP 604 spelling around `Self` for that reason."""
+    import attrs
+    import typing
+
+    A = attrs.make_class("F52A", {"d": attrs.field(type=list[typing.Self] | None)})
+    B = attrs.make_class("F52B", {"d": attrs.field(type=Optional[list[typing.Self]])})
+    registered = any(f.get("signature") == F52_SIG for f in chk.known)
+    for cfg in [c for c in ALL_CFGS if c["gen"] and not c["tuple"]]:
+        c = make_converter(cfg)
+        x = A([A(None)])
+        try:
+            ok = c.structure(c.unstructure(x), A) == x
+        except Exception:  # noqa: BLE001
+            ok = False
+        ctrl = c.structure(c.unstructure(B([B(None)])), B) == B([B(None)])
+        chk.count("F52" + cfg_name(cfg), nontrivial=True)
+        if not ctrl:
+            chk.violation(f"C01 oracle: Optional[list[Self]] does not round-trip [{cfg_name(cfg)}]", {"probe": "f52-control", "cfg": cfg})
+        if ok:
+            chk.note("F52-probe:not-reproduced(stale?)")
+        elif registered:
+            chk.violation(f"C01 oracle: a class with `d: list[Self] | None` does not round-trip [{cfg_name(cfg)}]",
+                          {"probe": F52_SIG, "cfg": cfg})
+        else:
+            chk.note("F52-probe:reproduced-but-no-known_findings-entry")
+
+
 def known_finding_probes(chk, drv):
     """Reproduce each recorded finding on the real code (a stale entry would show as 0 reproductions)."""
+    probe_f52(chk)
     # F10: Converter, set[tuple[int, ...]]
     w = {"classes": [], "enums": []}
     S = Session(drv, w)
